@@ -63,6 +63,10 @@ def run_pass(ctx, rep, spec, enc, kinds, limit=None, want_enum=True):
                 dis('ctor-exc', {}, {'exc': repr(e)[:300], 'n_model': 0})
         return None
     xs, full = proc.vectors(ctx.rng, dvs, limit)
+    want_lean = any(k in kinds for k in LEAN_KINDS)
+    spy = ConnSpy(gp) if want_lean else None
+    lean_samples = []
+    lean_cap = ctx.pick(60, 400)
     n_opts = [dv.n_opts if dv.is_discrete else None for dv in dvs]
     by_vec, by_design = {}, {}
     results = {}
@@ -76,7 +80,10 @@ def run_pass(ctx, rep, spec, enc, kinds, limit=None, want_enum=True):
     for x in xs:
         case = {'x': tolist(x)}
         try:
+            if spy:
+                spy.reset()
             inst, xi, act = gp.get_graph(list(x))
+            calls = dict(spy.calls) if spy else None
         except Exception as e:
             if n_model > 0 or not isinstance(e, RuntimeError):
                 dis('decode-exc', case, {'exc': repr(e)[:300], 'n_model': n_model})
@@ -89,6 +96,8 @@ def run_pass(ctx, rep, spec, enc, kinds, limit=None, want_enum=True):
         c = P.canon(inst)
         key = norm_key(P, P.design_key(c))
         results[tuple(tolist(x))] = (tuple(xi), tuple(act), key)
+        if spy and len(lean_samples) < lean_cap:
+            lean_samples.append((list(x), c, list(xi), list(act), calls))
         if xi != tolist(x):
             stats['corrected'] += 1
         for complaint in P.judge(c):
@@ -156,6 +165,13 @@ def run_pass(ctx, rep, spec, enc, kinds, limit=None, want_enum=True):
             dis('same-design-different-vectors', case, {'xi': xi, 'other': list(by_design[key])},
                 conn_var_involved=any(a != b for i, (a, b) in enumerate(zip(vkey, by_design[key])) if i in conn_var))
         by_design[key] = vkey
+    if spy:
+        spy.remove()
+        try:
+            rep.count('lean-decode:' + str(lean_decode_checks(ctx, P, gp, dvs, lean_samples, dis, {})).split(':')[0])
+        except Exception as e:
+            import traceback
+            rep.disagree('harness-exc', inp, {'exc': repr(e)[:200], 'tb': traceback.format_exc(limit=6)[-900:]})
     rep.case(inp, nontrivial=len(model) >= 2 or bool(spec.get('conn')) or bool(spec.get('dvs')), n=max(stats['n'], 1),
              sample=dict(inp, n_vectors=len(xs), n_model_designs=n_model) if len(model) >= 2 else None)
     rep.count('enc:' + enc, 'stream:' + spec.get('stream', '?'), 'space:%s' % ('full' if full else 'sampled'))
@@ -165,6 +181,8 @@ def run_pass(ctx, rep, spec, enc, kinds, limit=None, want_enum=True):
     if n_model <= 3000:
         model_keys = all_model_keys(P)
         out['model_keys'] = model_keys
+    if 'lean-design-space' in kinds:
+        lean_design_space(ctx, P, gp, n_model, model_keys, dis)
     if full and model_keys is not None:
         missing = {norm_key(P, k) for k in model_keys} - set(by_design)
         if missing:
@@ -279,3 +297,292 @@ def enum_checks(ctx, P, gp, dvs, n_opts, model_keys, n_model, dis, conn_var):
             dis('enum-missing-designs', {}, {'missing': [str(m) for m in sorted(mk - set(seen), key=str)[:3]], 'n_model': len(mk), 'n_enum': len(seen)})
         if set(seen) - mk:
             dis('enum-extra-designs', {}, {'extra': [str(m) for m in sorted(set(seen) - mk, key=str)[:3]]})
+
+
+# ---------------------------------------------------------------------------------------------------------------------
+# Tie of the Lean definitions `decode` / `decodeRef` / `validDesign` / `allDesigns` (Adsg/Model/Decode.lean, Design.lean)
+# to the implementation: driver ops `decode_full`, `design_space`.
+
+LEAN_KINDS = {'lean-decode-design', 'lean-decode-vector', 'lean-decode-activeness', 'lean-contract', 'lean-design-space'}
+GRID = 1000
+
+
+class ConnSpy:
+    """Records the (existence pattern, input, output) of AssignmentManager.get_conn_idx calls made by get_graph -
+    an observation of the processor's use of its managers from the outside (instance attribute on the manager object)."""
+
+    def __init__(self, gp):
+        self.calls = {}
+        self.mgrs = []
+        for cc, data in gp._conn_choice_data_map.items():
+            mgr = data[0]
+            orig = mgr.get_conn_idx
+
+            def wrapped(dv, existence=None, _orig=orig, _cc=cc, **kw):
+                out = _orig(dv, existence=existence, **kw)
+                self.calls[_cc] = (existence, [int(v) for v in dv], out)
+                return out
+            mgr.get_conn_idx = wrapped
+            self.mgrs.append(mgr)
+
+    def reset(self):
+        self.calls = {}
+
+    def remove(self):
+        for mgr in self.mgrs:
+            try:
+                del mgr.get_conn_idx
+            except AttributeError:
+                pass
+
+
+def manager_table(mgr, existence, cache):
+    """(design vector with -1 marks, matrix) rows of one existence pattern, through the encoder's own tables when it is
+    an eager encoder and through the manager API otherwise."""
+    from adsg_core.optimization.assign_enc.encoding import EagerEncoder
+    key = (id(mgr), hash(existence))
+    if key in cache:
+        return cache[key]
+    enc = mgr.encoder
+    if isinstance(enc, EagerEncoder) and existence in enc._design_vectors:
+        tab = [[[int(v) for v in dv], [[int(v) for v in r] for r in m]]
+               for dv, m in zip(enc._design_vectors[existence], enc.matrix[existence])]
+        kind = 'eager'
+    else:
+        alldv = mgr.get_all_design_vectors()
+        rows = alldv.get(existence)
+        tab = None
+        kind = 'api'
+        if rows is not None:
+            tab = []
+            for r in rows:
+                _, _, M = mgr.get_matrix([max(int(v), 0) for v in r], existence=existence)
+                tab.append([[int(v) for v in r], [[int(v) for v in rr] for rr in np.array(M)]])
+    cache[key] = (tab, kind)
+    return cache[key]
+
+
+def lean_problem(P, gp):
+    """The Lean `Problem` in the processor's own variable order, or None when the spec has features the decode model
+    does not cover (linked DV nodes)."""
+    spec = P.spec
+    if spec.get('dv_links'):
+        return None
+    conn_by_node = {cc: (mconn, sidx, tidx) for cc, mconn, sidx, tidx in P.conn}
+    conn, conn_nodes = [], []
+    for cc in gp.connection_choice_nodes:
+        if cc not in conn_by_node or conn_by_node[cc][0] is None:
+            return None
+        conn.append(conn_by_node[cc][0])
+        conn_nodes.append(cc)
+    if len(conn) != len([c for c in P.conn if c[1] is not None]):
+        return None
+    dspec = {d['node']: d for d in spec.get('dvs', [])}
+    dvs, dv_meta = [], []
+    for nd in gp.design_variable_nodes:
+        d = dspec.get(P.b.idx.get(nd))
+        if d is None:
+            return None
+        if d['kind'] == 'discrete':
+            dvs.append({'node': d['node'], 'dom': {'kind': 'discrete', 'n': d['n']}})
+        else:
+            dvs.append({'node': d['node'], 'dom': {'kind': 'cont', 'lo': 0, 'hi': GRID}})
+        dv_meta.append(d)
+    if len(dvs) != len(spec.get('dvs', [])):
+        return None
+    return {'g': gen_model_graph(spec), 'conn': conn, 'dvs': dvs, 'conn_nodes': conn_nodes, 'dv_meta': dv_meta}
+
+
+def gen_model_graph(spec):
+    from . import gen
+    return gen.model_graph(spec)
+
+
+def to_grid(d, v):
+    """Continuous value -> grid point (affine map lo -> 0, hi -> GRID); None when not on the grid."""
+    lo, hi = d['lo'], d['hi']
+    t = (v - lo) / (hi - lo) * GRID
+    k = round(t)
+    pts = {0: lo, GRID: hi, GRID // 4: lo + (hi - lo) * .25, GRID // 2: (lo + hi) / 2}
+    if k in pts and pts[k] == v:
+        return k
+    if k < 0 or k > GRID:       # out-of-range probes: any point beyond the bound
+        return k
+    return None
+
+
+def from_grid(d, k):
+    lo, hi = d['lo'], d['hi']
+    return {0: lo, GRID: hi, GRID // 4: lo + (hi - lo) * .25, GRID // 2: (lo + hi) / 2}.get(k)
+
+
+def lean_decode_checks(ctx, P, gp, dvs, samples, dis, cache):
+    """samples: [(x, inst canon c, xi, act, spy calls)]"""
+    LP = lean_problem(P, gp)
+    if LP is None:
+        return 'skipped'
+    spec = P.spec
+    sel_vars, sel_maps = [], []
+    for i, dv in enumerate(dvs):
+        if isinstance(dv.node, SelectionChoiceNode):
+            ci = P.b.cidx[dv.node]
+            opts = spec['sel'][ci]['opts']
+            try:
+                sel_maps.append([opts.index(P.b.idx[o]) for o in dv.options])
+            except (ValueError, KeyError):
+                return 'skipped'
+            sel_vars.append(ci)
+    n_sel = len(sel_vars)
+    conn_nopts, conn_rng = [], []
+    for cc in LP['conn_nodes']:
+        mgr, _, _, i0, i1, _ = gp._conn_choice_data_map[cc]
+        conn_nopts.append([int(dvs[i].n_opts) for i in range(i0, i1)])
+        conn_rng.append((i0, i1))
+    dv_off = n_sel + sum(len(n) for n in conn_nopts)
+    if dv_off + len(LP['dvs']) != len(dvs):
+        return 'skipped'
+    queries, meta = [], []
+    shown_by_row = {}
+    for x, c, xi, act, calls in samples:
+        if any(k == -9 for k in c['row']):
+            continue
+        # which selection variables the encoder shows for this architecture (oracle; must be a function of the row)
+        shown = [bool(act[j]) if c['row'][sel_vars[j]] is not None else True for j in range(n_sel)]
+        if shown_by_row.setdefault(c['row'], shown) != shown:
+            dis('lean-contract', {'x': tolist(x)}, {'failed': ['shown-not-a-function-of-the-architecture'], 'row': list(c['row'])})
+            continue
+        a = [(k if k is not None else (0 if spec['sel'][ci]['opts'] else None)) for ci, k in enumerate(c['row'])]
+        xm = []
+        ok = True
+        for j in range(n_sel):
+            v = int(x[j])
+            xm.append(sel_maps[j][v] if 0 <= v < len(sel_maps[j]) else v)
+        tables, imps, kinds = [], [], []
+        for cc, (i0, i1), nop in zip(LP['conn_nodes'], conn_rng, conn_nopts):
+            xm += [int(v) for v in x[i0:i1]]
+            mconn = [m for m in P.conn if m[0] is cc][0][1]
+            ns, nt = len(mconn['src']), len(mconn['tgt'])
+            if cc not in calls:
+                # the connection choice does not exist in this architecture: all variables inactive, no connections
+                tables.append(None)
+                imps.append(0)
+                kinds.append('absent')
+                continue
+            existence, _, out = calls[cc]
+            mgr = gp._conn_choice_data_map[cc][0]
+            tab, kind = manager_table(mgr, existence, cache)
+            M = [[0] * nt for _ in range(ns)]
+            for e in out[2]:
+                M[int(e[0])][int(e[1])] += 1
+            if tab is None:
+                ok = False
+                break
+            mats = [r[1] for r in tab]
+            tables.append(tab)
+            imps.append(mats.index(M) if M in mats else len(tab))
+            kinds.append(kind)
+        if not ok:
+            continue
+        for d, i in zip(LP['dv_meta'], range(dv_off, len(dvs))):
+            if d['kind'] == 'discrete':
+                xm.append(int(x[i]))
+            else:
+                k = to_grid(d, x[i])
+                if k is None:
+                    ok = False
+                    break
+                xm.append(k)
+        if not ok:
+            continue
+        queries.append({'x': xm, 'a': a, 'tables': tables, 'imps': imps, 'shown': shown})
+        meta.append((x, c, xi, act, kinds))
+    if not queries:
+        return 'no-queries'
+    m = ctx.driver.ask('decode_full', g=LP['g'], conn=LP['conn'], dvs=LP['dvs'], sel_vars=sel_vars, conn_nopts=conn_nopts,
+                       queries=queries)
+    if not m['wf'] or not m['dv_wf']:
+        dis('lean-contract', {}, {'wf': m['wf'], 'dv_wf': m['dv_wf']})
+    for (x, c, xi, act, kinds), q, r in zip(meta, queries, m['results']):
+        case = {'x': tolist(x)}
+        bad = [k for k in ('feasible', 'len_ok', 'sel_ok', 'conn_pos') if not r[k]]
+        for ki, t in enumerate(r['tables']):
+            if 'absent' in t:
+                if not t['absent']:
+                    bad.append('table%d:choice-present-but-not-decoded' % ki)
+            else:
+                bad += ['table%d:%s' % (ki, k) for k in ('wf', 'mats_exact', 'imp_lt', 'pos') if not t[k]]
+                if kinds[ki] == 'absent':
+                    bad.append('table%d:choice-absent-but-decoded' % ki)
+        if bad:
+            dis('lean-contract', case, {'failed': bad, 'a': q['a'], 'row': list(c['row'])})
+            continue
+        # activeness: the eager manager is modelled as it is; the others follow the reference semantics
+        dm = r['impl'] if all(k in ('eager', 'absent') for k in kinds) else r['ref']
+        d = dm['design']
+        mats_impl = [list(mm) for mm in c['mats'] if mm is not None]
+        mats_model = [[v for row in M for v in row] for M in d['mats']]
+        # the connection choices of the model are in processor order; c['mats'] in spec order - compare as multisets
+        dvals_model = []
+        for dd, v, vv in zip(LP['dv_meta'], d['dvals'], dm['vals']):
+            dvals_model.append(None if vv is None else (vv if dd['kind'] == 'discrete' else from_grid(dd, vv)))
+        by_node = {dd['node']: v for dd, v in zip(P.dv_nodes(), c['dvals'])}
+        dvals_impl = [by_node[dd['node']] for dd in LP['dv_meta']]
+        if (d['row'] != list(c['row']) or sorted(mats_impl) != sorted(mats_model) or dvals_model != dvals_impl
+                or r['nodes'] != list(c['nodes']) or not r['valid']):
+            dis('lean-decode-design', case, {'model': d, 'model_vals': dvals_model, 'impl_row': list(c['row']),
+                                             'impl_mats': mats_impl, 'impl_dvals': dvals_impl, 'valid': r['valid'],
+                                             'nodes_equal': r['nodes'] == list(c['nodes'])})
+            continue
+        # corrected vector (selection values translated to option indices of the spec)
+        xi_m = []
+        for j in range(n_sel):
+            v = int(xi[j])
+            xi_m.append(sel_maps[j][v] if 0 <= v < len(sel_maps[j]) else v)
+        for (i0, i1) in conn_rng:
+            xi_m += [int(v) for v in xi[i0:i1]]
+        exact = True
+        for dd, i in zip(LP['dv_meta'], range(dv_off, len(dvs))):
+            if dd['kind'] == 'discrete':
+                xi_m.append(int(xi[i]))
+            else:
+                k = to_grid(dd, xi[i])
+                if k is None:
+                    exact = False
+                xi_m.append(k)
+        act_l = [bool(v) for v in act]
+        act_m = act_l[:n_sel] + [v for (i0, i1) in conn_rng for v in act_l[i0:i1]] + act_l[dv_off:]
+        if exact and xi_m != dm['x']:
+            dis('lean-decode-vector', case, {'impl': xi_m, 'model': dm['x'], 'in_bounds': r['in_bounds']})
+        elif not r['in_bounds']:
+            dis('lean-decode-vector', case, {'model': dm['x'], 'in_bounds': False})
+        if act_m != dm['act']:
+            dis('lean-decode-activeness', case, {'impl': act_m, 'model': dm['act'], 'managers': kinds},
+                conn_var_involved=any(a1 != a2 for a1, a2 in zip(act_m[n_sel:dv_off], dm['act'][n_sel:dv_off])))
+    return 'checked:%d' % len(queries)
+
+
+def lean_design_space(ctx, P, gp, n_model, model_keys, dis):
+    """`allDesigns` / `nValid` / `nValidFormula` of the Lean model vs the harness' own product construction (which the
+    enumeration checks compare the implementation with)."""
+    spec = P.spec
+    if spec.get('dv_links'):
+        return
+    conn = [m[1] for m in P.conn if m[1] is not None]
+    dvs = [{'node': d['node'], 'dom': ({'kind': 'discrete', 'n': d['n']} if d['kind'] == 'discrete'
+                                      else {'kind': 'cont', 'lo': 0, 'hi': GRID})} for d in P.dv_nodes()]
+    m = ctx.driver.ask('design_space', g=gen_model_graph(spec), conn=conn, dvs=dvs, max=3000)
+    if m['n_formula'] != n_model or (m['n_valid'] is not None and m['n_valid'] != n_model):
+        dis('lean-design-space', {}, {'n_formula': m['n_formula'], 'n_valid': m['n_valid'], 'harness': n_model})
+        return
+    if m['designs'] is not None and model_keys is not None:
+        live = [i for i, c_ in enumerate(P.conn) if c_[1] is not None]
+        keys = set()
+        for d in m['designs']:
+            mats = [None] * len(P.conn)
+            for i, M in zip(live, d['mats']):
+                mats[i] = tuple(v for r in M for v in r)
+            dv = tuple(None if v is None else (v if dd['kind'] == 'discrete' else 'c') for dd, v in zip(P.dv_nodes(), d['dvals']))
+            keys.add((tuple(d['row']), tuple(mats), dv))
+        if keys != {norm_key(P, k) for k in model_keys}:
+            dis('lean-design-space', {}, {'only_lean': [str(k) for k in sorted(keys - set(model_keys), key=str)[:3]],
+                                          'only_harness': [str(k) for k in sorted(set(model_keys) - keys, key=str)[:3]]})
